@@ -281,6 +281,7 @@ let run_cluster (toks : string list) : string =
     let c = ref (Model.cinit (nat_of_int nn)) in
     let links = Array.make nn true in
     let pending = Array.make nn [] in
+    let queued = Array.make nn [] in
     let slots = Array.make nn None in
     let nodeat i = Model.node !c (nat_of_int i) in
     let dump i =
@@ -352,6 +353,7 @@ let run_cluster (toks : string list) : string =
               let acks = List.filter (fun j -> links.(j)) sel in
               c := Model.cstep !c (Model.CIssue (nat_of_int i, m, List.map nat_of_int acks));
               pending.(i) <- pending.(i) @ [ m ];
+              queued.(i) <- queued.(i) @ [ m ];
               let res =
                 if List.length acks = List.length sel then "ok"
                 else Printf.sprintf "cf.%d.%d" (List.length acks) (List.length sel)
@@ -368,10 +370,24 @@ let run_cluster (toks : string list) : string =
               "B:ok" ^ touched_dump [ j ]
             end
           | [ "F"; i ] -> pending.(int_of_string i) <- []; "F:"
+          | [ "T" ] ->
+            (* the distributors' interval: every node sends one batch with everything registered since
+               its last flush to every reachable member *)
+            for i = 0 to nn - 1 do
+              if queued.(i) <> [] then
+                for j = 0 to nn - 1 do
+                  if j <> i && links.(j) then c := Model.cstep !c (Model.CBatch (nat_of_int j, queued.(i)))
+                done;
+              queued.(i) <- []
+            done;
+            "T:" ^ touched_dump (List.init nn (fun x -> x))
           | [ "X"; j; i ] ->
             let j = int_of_string j and i = int_of_string i in
             if links.(i) then full_repair j i;
             "X:" ^ touched_dump [ j ]
+          | [ "XF"; j; _ ] ->
+            (* every storage write of j fails: every handler leaves set and store as they are (C02) *)
+            "XF:" ^ touched_dump [ int_of_string j ]
           | [ "XD"; j; i ] ->
             let j = int_of_string j and i = int_of_string i in
             if links.(i) then begin
@@ -398,6 +414,30 @@ let run_cluster (toks : string list) : string =
                  "XM:ok" ^ touched_dump [ j ]
                end else "XM:fail" ^ touched_dump [ j ]
              | None -> "XM:noslot" ^ touched_dump [ j ])
+          | [ "G"; j; i; kz; ka; kb ] ->
+            (* an exchange of j against i racing with three puts on i: the observation says whether
+               the exchange saw the last one - both serialisations are legal *)
+            let j = int_of_string j and i = int_of_string i in
+            let o = match obs with Some o -> o | None -> "=" in
+            let stamps = List.filter (fun x -> x <> "") (String.split_on_char ',' (obs_field o "ts")) in
+            let saw_b = obs_field o "b" = "1" in
+            let put k t =
+              if t <> "0" then begin
+                let m = Model.MPut { Model.d_id = n k; d_ts = n t; d_data = n (Printf.sprintf "%x" (0x6000 + int_of_string ("0x" ^ k))) } in
+                c := Model.cstep !c (Model.CIssue (nat_of_int i, m, []));
+                pending.(i) <- pending.(i) @ [ m ];
+                queued.(i) <- queued.(i) @ [ m ]
+              end
+            in
+            (match stamps with
+             | [ tz; ta; tb ] ->
+               put kz tz;
+               put ka ta;
+               if saw_b then put kb tb;
+               if links.(i) then full_repair j i;
+               if not saw_b then put kb tb
+             | _ -> ());
+            "G:" ^ touched_dump [ i; j ]
           | [ "P"; i ] ->
             let i = int_of_string i in
             c := Model.cstep !c (Model.CPurge (nat_of_int i));
@@ -406,6 +446,7 @@ let run_cluster (toks : string list) : string =
             let i = int_of_string i in
             c := Model.cstep !c (Model.CRestart (nat_of_int i));
             slots.(i) <- None;
+            queued.(i) <- [];
             "R:" ^ touched_dump [ i ]
           | [ "Q" ] ->
             Array.fill links 0 nn true;
